@@ -137,9 +137,15 @@ class LoggedList(list):
         return self
 
 
-def logged_gen(n, kind, log, pause=0.0, tail=0.0):
+class InputBroken(Exception):
+    pass
+
+
+def logged_gen(n, kind, log, pause=0.0, tail=0.0, raise_at=None):
     """a generator input; `pause`: virtual seconds it takes to produce each element, `tail`: … to find out that it is exhausted"""
     for k in range(n):
+        if raise_at is not None and k == raise_at:
+            raise InputBroken('the input iterable broke after %d elements' % k)
         if pause:
             sim.time_shim.sleep(pause)
         log.append(('d', k, round(sim.S.now - sim.S.t0, 6)))
@@ -729,7 +735,7 @@ def _make_input(op, log):
     if kind == 'range':
         return range(n)
     if kind == 'gen':
-        return logged_gen(n, ek, log, op.get('gen_pause', 0.0), op.get('gen_tail', 0.0))
+        return logged_gen(n, ek, log, op.get('gen_pause', 0.0), op.get('gen_tail', 0.0), op.get('input_raises_at'))
     if kind == 'nd':
         return np.arange(n * 2).reshape(n, 2) * 1.0 + 0.0 if False else np.stack([np.arange(n), np.arange(n) * 2], axis=1)
     raise AssertionError(kind)
